@@ -10,6 +10,8 @@ struct V {
     func: String,
     ops: Vec<String>,
     kinds_in_alloc: Vec<String>,
+    /// locals that are fields of `self` (`let Self { memory_usage, .. } = self;`): name -> `self.<field>`
+    aliases: Vec<(String, String)>,
 }
 
 fn ord(e: &syn::Expr) -> Option<&'static str> {
@@ -72,6 +74,7 @@ fn role_of(file: &str, func: &str, recv: &str, kind: &str) -> &'static str {
 
 impl<'ast> Visit<'ast> for V {
     fn visit_impl_item_fn(&mut self, f: &'ast syn::ImplItemFn) {
+        self.aliases.clear();
         let old = std::mem::replace(&mut self.func, f.sig.ident.to_string());
         syn::visit::visit_impl_item_fn(self, f);
         self.func = old;
@@ -81,7 +84,53 @@ impl<'ast> Visit<'ast> for V {
         syn::visit::visit_item_fn(self, f);
         self.func = old;
     }
+    fn visit_local(&mut self, l: &'ast syn::Local) {
+        if let (syn::Pat::Struct(ps), Some(init)) = (&l.pat, &l.init) {
+            let src: String = toks(&*init.expr).chars().filter(|c| !c.is_whitespace()).collect();
+            if src == "self" || src == "*self" || src == "&*self" {
+                for fp in &ps.fields {
+                    if let syn::Pat::Ident(pi) = &*fp.pat {
+                        let member: String = toks(&fp.member).chars().filter(|c| !c.is_whitespace()).collect();
+                        self.aliases.push((pi.ident.to_string(), format!("self.{member}")));
+                    }
+                }
+            }
+        }
+        syn::visit::visit_local(self, l);
+    }
+    fn visit_expr_call(&mut self, c: &'ast syn::ExprCall) {
+        // `AtomicUsize::load(&self.x, Ordering::..)`: the same operation in path syntax
+        if let syn::Expr::Path(p) = &*c.func {
+            let segs: Vec<String> = p.path.segments.iter().map(|s| s.ident.to_string()).collect();
+            if segs.len() >= 2 && segs[segs.len() - 2].starts_with("Atomic") && !c.args.is_empty() {
+                let name = segs[segs.len() - 1].clone();
+                let mut recv = (*c.args.first().unwrap()).clone();
+                while let syn::Expr::Reference(r) = recv {
+                    recv = (*r.expr).clone();
+                }
+                let rest: syn::punctuated::Punctuated<syn::Expr, syn::token::Comma> = c.args.iter().skip(1).cloned().collect();
+                let m = syn::ExprMethodCall {
+                    attrs: Vec::new(),
+                    receiver: Box::new(recv),
+                    dot_token: Default::default(),
+                    method: syn::Ident::new(&name, proc_macro2::Span::call_site()),
+                    turbofish: None,
+                    paren_token: Default::default(),
+                    args: rest,
+                };
+                self.record(&m);
+            }
+        }
+        syn::visit::visit_expr_call(self, c);
+    }
     fn visit_expr_method_call(&mut self, m: &'ast syn::ExprMethodCall) {
+        self.record(m);
+        syn::visit::visit_expr_method_call(self, m);
+    }
+}
+
+impl V {
+    fn record(&mut self, m: &syn::ExprMethodCall) {
         let name = m.method.to_string();
         let kind = match name.as_str() {
             "load" => Some(".load"),
@@ -96,7 +145,10 @@ impl<'ast> Visit<'ast> for V {
         if let Some(kind) = kind {
             let ords: Vec<&'static str> = m.args.iter().filter_map(ord).collect();
             if !ords.is_empty() {
-                let recv: String = toks(&m.receiver).chars().filter(|c| !c.is_whitespace()).collect();
+                let mut recv: String = toks(&m.receiver).chars().filter(|c| !c.is_whitespace()).collect();
+                if let Some((_, full)) = self.aliases.iter().rev().find(|(n, _)| *n == recv) {
+                    recv = full.clone();
+                }
                 let (o1, o2) = match (name.as_str(), ords.as_slice()) {
                     ("fetch_update", [a, b]) | ("compare_exchange", [a, b]) | ("compare_exchange_weak", [a, b]) => (*a, *b),
                     (_, [a]) => (*a, ".other"),
@@ -117,12 +169,11 @@ impl<'ast> Visit<'ast> for V {
                 }
             }
         }
-        syn::visit::visit_expr_method_call(self, m);
     }
 }
 
 pub fn emit(src: &Path, out: &mut String) {
-    let mut v = V { file: String::new(), func: String::new(), ops: Vec::new(), kinds_in_alloc: Vec::new() };
+    let mut v = V { file: String::new(), func: String::new(), ops: Vec::new(), kinds_in_alloc: Vec::new(), aliases: Vec::new() };
     for (f, short) in [("arenas/atomic_bucket.rs", "atomic_bucket.rs"), ("arenas/lockfree.rs", "lockfree.rs"), ("threaded_rodeo.rs", "threaded_rodeo.rs")] {
         let path = src.join(f);
         if !path.exists() {
